@@ -185,10 +185,17 @@ def main_check(prop, module, argv):
         print("proof obligations of %s do not check: %s" % (prop, po["errors"]))
 
     # 2. correspondence
-    with Lock():
-        vfx.build_model()
-        for rel in getattr(module, "BUILDS", [False]):
-            vfx.build_harness(release=rel)
+    try:
+        with Lock():
+            vfx.build_model()
+            for rel in getattr(module, "BUILDS", [False]):
+                vfx.build_harness(release=rel)
+    except RuntimeError as e:
+        # the correspondence cannot even be run: the harness (a client of the crate's public API) or the extracted model
+        # does not build against the current tree.  No failing input can be searched for; the property is not shown.
+        path = write_replay(prop, "the correspondence no longer builds against /repo's working tree", {"build_error": str(e)[-3000:], "seed": seed})
+        print("VIOLATION property=%s replay=%s no-failing-input-found" % (prop, path))
+        return 1
     if replay:
         rp = json.load(open(replay))
         cases = module.cases_from_replay(rp) if hasattr(module, "cases_from_replay") else []
